@@ -82,10 +82,21 @@ def code_end(ctx):
     for o in oks:
         v = o.value[3][0]
         end = None
-        if v[0] == "ovl":
-            for k_, val in v[2]:
-                if k_ == "code_end_addr":
-                    end = val
+        # the machine handed back: stores laid over a base value, and / or a struct expression (`Axecutor { .., ..base }`)
+        fnames = [f_["name"] for f_ in facts.adts["axecutor::Axecutor"]["variants"][0]["fields"]]
+        for _ in range(4):
+            if v[0] == "ovl":
+                for k_, val in v[2]:
+                    if k_ == "code_end_addr":
+                        end = val
+                if end is not None:
+                    break
+                v = v[1]
+            elif v[0] == "agg" and v[1] == "adt:axecutor::Axecutor" and len(v[3]) == len(fnames):
+                end = v[3][fnames.index("code_end_addr")]
+                break
+            else:
+                break
         if end is None:
             bad = bad or "code_end_addr is not set"
             continue
@@ -405,6 +416,20 @@ def writers(ctx):
                                      where=F.site_str(b, st[3]), what="finished can be cleared: execution could resume after finishing")
                     elif not okw:
                         ck.violation("C11.writers", inst, "unexpected writer of `finished`", where=F.site_str(b, st[3]))
+                # a store to the signal field of an existing error value (`e.signals_normal_finish = true`)
+                if names and names[-1] == ("signals_normal_finish", "helpers::errors::AxError"):
+                    val = st[2]
+                    inst = "AxError signal stored in %s" % (b["name"] or k)
+                    if val[0] == "use" and val[1][0] == "k" and val[1][1].get("v") == 1:
+                        raisers.add(k.split("::{closure")[0])
+                        ck.ok("C11.writers", inst)
+                    elif val[0] == "use" and val[1][0] == "k" and val[1][1].get("v") == 0:
+                        ck.ok("C11.writers", inst)
+                    elif val[0] == "use" and val[1][0] in ("c", "m") and any(isinstance(e, list) and e[0] == "f" and e[2] == "signals_normal_finish"
+                                                                            for e in val[1][1][1]):
+                        ck.ok("C11.writers", inst)
+                    else:
+                        ck.violation("C11.writers", inst, "signals_normal_finish is set from a computed value", where=F.site_str(b, st[3]))
                 # AxError aggregates with signals_normal_finish
                 rv = st[2]
                 if rv[0] == "agg" and rv[1][0] == "adt" and rv[1][1] == "helpers::errors::AxError":
